@@ -286,6 +286,33 @@ def family_Q3(two_sided=False, maxuq=3):
                 yield make3(3, 2, 2, sprefs, (1, 2), lprefs, pq, lq3)
 
 
+def family_F4(profiles=("unit", "cap2", "lectight")):
+    """Student lists over FOUR projects (ties of three ahead of a further
+    entry, two ties in one list): student 1 has every weak order of {1,2,3,4},
+    student 2 a short fixed list; three project->lecturer maps; restricted
+    lecturer orders."""
+    firsts = weak_orders((1, 2, 3, 4))
+    seconds = (((1,),), ((3,), (4,)), ((2, 4),))
+    for lect in ((1, 1, 1, 1), (1, 1, 2, 2), (1, 2, 1, 2)):
+        nl = max(lect)
+        for a in firsts:
+            for b in seconds:
+                sprefs = (a, b)
+                per = []
+                for k in range(1, nl + 1):
+                    acc = acceptable_students(sprefs, lect, k)
+                    opts = []
+                    for o in (tuple((x,) for x in acc), tuple((x,) for x in reversed(acc)),
+                              ((acc,) if acc else ())):
+                        if o not in opts:
+                            opts.append(o)
+                    per.append(opts)
+                for lprefs in itertools.product(*per):
+                    for name, pq, lq3 in quota_profiles3(2, 4, nl, lect):
+                        if name in profiles:
+                            yield make3(2, 4, nl, sprefs, lect, tuple(lprefs), pq, lq3)
+
+
 def family_W(big=True):
     """Multi-digit ids: 12 projects (2 students) and 11 students (2 projects).
     big=False leaves out the 11-student instances."""
@@ -309,6 +336,31 @@ def family_W(big=True):
         out.append(make3(11, 2, 2, sprefs, (1, 2), lp, ((0, 6), (0, 6)),
                          ((0, 3, 6), (0, 3, 6))))
         out.append(make2(11, 2, sprefs, lp, ((0, 6), (0, 6))))
+        out.extend(family_W2())
+    return out
+
+
+def family_W2():
+    """Two-digit ids on BOTH sides: 11 students x 11 projects/hospitals, with
+    the pairs (1,11) and (11,1) present and ranked differently (textual
+    concatenation of ids, e.g. '1'+'11' == '11'+'1', must not matter)."""
+    sp = [((i,),) for i in range(1, 12)]
+    sp[0] = ((1,), (11,))
+    sp[10] = ((11,), (1,))
+    sp = tuple(sp)
+    ident = tuple(range(1, 12))
+    lp = [((i,),) for i in range(1, 12)]
+    lp[0] = ((11,), (1,))        # agent 1 prefers 11 to 1
+    lp[10] = ((11,), (1,))       # agent 11 prefers 11 to 1
+    lp = tuple(lp)
+    pq = tuple((0, 1) for _ in range(11))
+    out = [make2(11, 11, sp, lp, pq),
+           make3(11, 11, 11, sp, ident, lp, pq, tuple((0, 1, 1) for _ in range(11)))]
+    # a shared lecturer with two-digit project ids
+    lect = tuple(1 if p <= 9 else 2 for p in range(1, 12))
+    l1 = tuple((i,) for i in range(1, 10)) + ((11,),)     # students listing p1..p9 (+ s11 lists p1)
+    l2 = ((11,), (10,), (1,))                              # p10, p11: students 10, 11, 1
+    out.append(make3(11, 11, 2, sp, lect, (l1, l2), pq, ((0, 5, 9), (0, 1, 2))))
     return out
 
 
